@@ -27,7 +27,7 @@ RULE = (
 )
 ASSUMPTIONS = [
     "enumerators being named (dynamic) rather than numbered (static) is the only representational difference",
-    "values travel as JSON: finite floats, 7-bit ASCII strings",
+    "values travel as JSON: finite floats, valid UTF-8 strings",
     "enum values used are declared enumerators with unique values",
 ]
 K1 = "cpp-dynamic-encode-unpacked"
@@ -58,15 +58,17 @@ def check_batch(run, b, nrand):
     lines = []
     meta = []
     for name in sch.structs:
-        if name.endswith(("Input", "Output")):
-            continue
         t = ("struct", name)
         for vi, v in enumerate(b.values(run, name, nrand)):
             canon = ref.encode(sch, name, v)
             for op, payload in (("SE", json.dumps(PP.to_json(sch, t, v))), ("DE", json.dumps(PP.to_json(sch, t, v, True))), ("SD", canon.hex()), ("DD", canon.hex())):
                 lines.append("%s %s %s" % (op, name, payload))
             meta.append((name, v, canon, vi))
-    outputs, crashes = cpp.run(b.binary, lines, b.dir, reflection=b.refl)
+    # every other batch: the reflection binary is loaded twice into the same DynamicSchema object
+    reload = b.bi % 2 == 1
+    if reload:
+        run.count("batches_with_the_reflection_loaded_twice")
+    outputs, crashes = cpp.run(b.binary, lines, b.dir, reflection=b.refl, reload=reload)
     if PP.report_crashes(run, crashes, lines, b.case, "static/dynamic codec"):
         return
     sigs = {n: shapes.shape_sig(sch, n) for n in sch.structs}
